@@ -20,7 +20,7 @@ def disc17(sc: dict, tr: dict, clause: str, pos: int) -> str:
     return disc(sc, tr, clause, pos)
 
 
-def run_scenarios(ctx: Ctx, scenarios: list) -> None:
+def run_scenarios(ctx: Ctx, scenarios: list) -> list:
     # close() from a non-loop thread with a backlog of slow listener callbacks: real threads in real time, recorded while the
     # virtual-time scenarios run (props/c17sync.py)
     import threading
@@ -91,6 +91,7 @@ def run_scenarios(ctx: Ctx, scenarios: list) -> None:
     cov.update(res)
     ctx.assumptions += ['the link does not deliver to closed transports (as no socket would)',
                         'close() from a non-loop thread is exercised in real time by two directed histories only (props/c17sync.py)']
+    return traces
 
 
 def run(ctx: Ctx) -> None:
@@ -98,7 +99,19 @@ def run(ctx: Ctx) -> None:
     # (the backlog must outlast any bounded wait a close might be given: 6 callbacks of 2.3 s, thorough also 8 of 2.6 s)
     sync = [{'id': 'c17-sync-0', 'sync': {'n': 6, 'cb': 2.3}}, {'id': 'c17-sync-fl', 'sync': {'n': 0, 'cb': 0, 'mode': 'foreign-loop'}}] + (
         [{'id': 'c17-sync-1', 'sync': {'n': 8, 'cb': 2.6}}] if ctx.thorough else [])
-    run_scenarios(ctx, [rf.gen_c17(rng, 'c17-%d' % k, ctx.thorough) for k in range(ctx.pick(400, 12000))] + sync)
+    # what is in flight when the application calls in: Lifecycle.tla explored by TLC (the unguarded configurations reproduce
+    # findings D20 and D27 in the design), every behaviour of its replay configuration run on a real instance
+    from props import lifecyclemodel as lm
+    info = lm.check_models(ctx)
+    mscs, predicted = lm.model_scenarios(ctx, 'c17')
+    traces = run_scenarios(ctx, [rf.gen_c17(rng, 'c17-%d' % k, ctx.thorough) for k in range(ctx.pick(400, 12000))] + mscs + sync)
+    d = lm.drift(traces, predicted)
+    for x in d[:5]:
+        print('MODEL-DRIFT property=C17 scenario=%s real multicasts %s, model predicts %s (evidence, not a verdict: the exhaustively '
+              'checked model Lifecycle.tla no longer describes what an instance has in flight)' % (x['scenario'], x['real'], x['model']))
+    ctx.coverage.update(info)
+    ctx.coverage.update({'lifecycle_behaviours_replayed': len(mscs), 'lifecycle_model_drift': len(d), 'lifecycle_model_drift_samples': d[:3]})
+    ctx.log('Lifecycle model: %d distinct states; behaviours replayed on a real instance: %d, drift: %d' % (info['lifecycle_model_distinct'], len(mscs), len(d)))
 
 
 def replay(ctx: Ctx, path: str) -> None:
